@@ -443,11 +443,11 @@ def drive(col, case: Case, metric_sets, scratch, visitor, id_prefix):
             sut.__enter__()
         except Exception as exc:  # noqa: BLE001
             sut.__exit__(None, None, None)
+            # "instrumenting never raises" is C01's subject; here the case is only counted (and bounded by
+            # the harnesses' guards so that it can never silently empty the exploration)
             col.count("instrumentation_failures")
-            col.violation(f"{id_prefix}|{tag}|instrument|raises:{type(exc).__name__}",
-                          f"{case.name}: loading through the import hook raised {exc!r}"[:300],
-                          {"name": case.name, "source": case.source, "meta": _meta_data(case.meta),
-                           "metrics": list(metrics)}, rank=(case.meta.get("size") or 99) * 100)
+            col.count(f"instrumentation_failures[{tag}|{type(exc).__name__}]")
+            col.note(f"instrumentation_failure_example[{tag}|{type(exc).__name__}]", f"{case.name}: {exc!r}"[:200])
             continue
         try:
             rep = Reported(sut)
